@@ -13,10 +13,12 @@ import (
 	"flag"
 	"fmt"
 	"io"
+	"math/big"
 	"os"
 	"path/filepath"
 	"sort"
 	"strings"
+	"sync"
 	"time"
 
 	"github.com/fsnotify/fsnotify"
@@ -25,6 +27,7 @@ import (
 	"github.com/hyperledger/firefly-signer/pkg/ethsigner"
 	"github.com/hyperledger/firefly-signer/pkg/ethtypes"
 	"github.com/hyperledger/firefly-signer/pkg/fswallet"
+	"github.com/hyperledger/firefly-signer/pkg/keystorev3"
 	"github.com/sirupsen/logrus"
 
 	"verifharness/cv"
@@ -57,6 +60,9 @@ type hop struct {
 	Want    []byte `json:"-"` // address the generator meant the request to name (nil: none)
 	Barrier []byte `json:"-"` // write of a fresh matching file: wait until the listener has reported this address
 	Tx1559  bool   `json:"tx1559,omitempty"`
+	Shape   int    `json:"shape,omitempty"`   // transaction shape (newTx)
+	ChainID int64  `json:"chainId,omitempty"` // 0 in a generated hop means chainA (see chainOf)
+	Chain0  bool   `json:"chain0,omitempty"`  // the chain id really is 0
 	// observations
 	Cls      int      `json:"cls"`
 	Signer   []byte   `json:"signer,omitempty"`
@@ -73,6 +79,10 @@ type wcase struct {
 	Hist     []*hop          `json:"hist"`
 	NewCls   int             `json:"new_cls"`
 	NewErr   string          `json:"new_err,omitempty"`
+	// round 3: addresses of the stress section (Go-side oracles only, see stress) and what it found
+	Stress         [][]byte `json:"-"`
+	StressFailures []string `json:"-"`
+	stressRuns     int
 }
 
 // ---------------------------------------------------------------------------------------------
@@ -115,7 +125,17 @@ func typedData() *eip712.TypedData {
 	return &td
 }
 
-func newTx(raw []byte, eip1559 bool) *ethsigner.Transaction {
+func chainOf(h *hop) int64 {
+	if h.ChainID == 0 && !h.Chain0 {
+		return chainA
+	}
+	return h.ChainID
+}
+
+// transaction shapes (round 3): 0 = the plain one; 1 only maxFeePerGas; 2 only maxPriorityFeePerGas;
+// 3 contract creation (no to, no data); 4 every numeric field absent; 5 large value and long data;
+// 6 both EIP-1559 fields present but zero (legacy signing); 7 a single data byte below 0x80
+func newTx(raw []byte, eip1559 bool, shape int) *ethsigner.Transaction {
 	to := ethtypes.MustNewAddress("0x00000000000000000000000000000000000000bb")
 	tx := &ethsigner.Transaction{
 		From:     json.RawMessage(raw),
@@ -130,6 +150,29 @@ func newTx(raw []byte, eip1559 bool) *ethsigner.Transaction {
 		tx.MaxFeePerGas = ethtypes.NewHexInteger64(30)
 	} else {
 		tx.GasPrice = ethtypes.NewHexInteger64(20)
+	}
+	switch shape {
+	case 1:
+		tx.MaxPriorityFeePerGas, tx.MaxFeePerGas, tx.GasPrice = nil, ethtypes.NewHexInteger64(30), nil
+	case 2:
+		tx.MaxPriorityFeePerGas, tx.MaxFeePerGas, tx.GasPrice = ethtypes.NewHexInteger64(1), nil, ethtypes.NewHexInteger64(20)
+	case 3:
+		tx.To, tx.Data = nil, nil
+	case 4:
+		tx.Nonce, tx.GasLimit, tx.Value, tx.GasPrice, tx.MaxPriorityFeePerGas, tx.MaxFeePerGas = nil, nil, nil, nil, nil, nil
+	case 5:
+		tx.Value = (*ethtypes.HexInteger)(new(big.Int).Lsh(big.NewInt(1), 200))
+		tx.Nonce = ethtypes.NewHexInteger64(0)
+		d := make([]byte, 300)
+		for i := range d {
+			d[i] = byte(i * 7)
+		}
+		tx.Data = d
+	case 6:
+		tx.MaxPriorityFeePerGas, tx.MaxFeePerGas, tx.GasPrice = ethtypes.NewHexInteger64(0), ethtypes.NewHexInteger64(0), ethtypes.NewHexInteger64(1)
+	case 7:
+		tx.Data = []byte{0x7f}
+		tx.Nonce = ethtypes.NewHexInteger64(128)
 	}
 	return tx
 }
@@ -220,8 +263,34 @@ func runCase(c *wcase, base string) {
 			c.NewErr = err.Error()
 		}
 	}()
+	// the wallet works on its own copy of the configuration: what the caller does with its struct afterwards
+	// is of no concern
+	conf = fswallet.Config{Path: "/nonexistent", Filenames: fswallet.FilenamesConfig{PrimaryExt: ".scribbled", PrimaryMatchRegex: "(", PasswordExt: ".scribbled"},
+		Metadata: fswallet.MetadataConfig{Format: "scribbled"}, DefaultPasswordFile: "/nonexistent"}
 	if c.NewCls != 0 {
 		return
+	}
+	// results handed out earlier are verified again after later calls have run
+	type kept struct {
+		step int
+		addr []byte
+		wf   keystorev3.WalletFile
+	}
+	var retained []kept
+	reverify := func(when string) {
+		for _, k := range retained {
+			func() {
+				defer func() {
+					if r := recover(); r != nil {
+						c.StressFailures = append(c.StressFailures, fmt.Sprintf("%s: the wallet file returned at step %d panics: %v", when, k.step, r))
+					}
+				}()
+				kp := k.wf.KeyPair()
+				if string(kp.Address[:]) != string(k.addr) || string(addrOfPriv(k.wf.PrivateKey())) != string(k.addr) {
+					c.StressFailures = append(c.StressFailures, fmt.Sprintf("%s: the wallet file returned at step %d for %x now holds the key of %x", when, k.step, k.addr, kp.Address[:]))
+				}
+			}()
+		}
 	}
 	defer func() {
 		defer func() { recover() }()
@@ -229,7 +298,7 @@ func runCase(c *wcase, base string) {
 	}()
 	initialised := false
 	initialisedOK := false
-	for _, h := range c.Hist {
+	for step, h := range c.Hist {
 		func() {
 			defer func() {
 				if r := recover(); r != nil {
@@ -258,14 +327,18 @@ func runCase(c *wcase, base string) {
 				for _, a := range acc {
 					h.Accounts = append(h.Accounts, append([]byte{}, a[:]...))
 				}
+				// the returned slice is the caller's: emptying it must not disturb the wallet
+				for i := range acc {
+					acc[i] = nil
+				}
 			case "sign":
-				tx := newTx(h.Raw, h.Tx1559)
-				rawTx, err := w.Sign(ctx, tx, chainA)
+				tx := newTx(h.Raw, h.Tx1559, h.Shape)
+				rawTx, err := w.Sign(ctx, tx, chainOf(h))
 				h.Cls = classify(err, false)
 				if err != nil {
 					h.ErrText = err.Error()
 				} else {
-					s, rerr := recoverTx(rawTx, chainA)
+					s, rerr := recoverTx(rawTx, chainOf(h))
 					if rerr != nil {
 						h.ErrText = "signed transaction does not parse: " + rerr.Error()
 						s = make([]byte, 20) // recovers to nothing: reported as a wrong signer
@@ -288,6 +361,10 @@ func runCase(c *wcase, base string) {
 					if rerr != nil {
 						h.ErrText = "typed-data signature does not recover: " + rerr.Error()
 						s = make([]byte, 20)
+					} else if string(res.Hash) != string(digest) || string(res.R) != string(res.SignatureRSV[0:32]) ||
+						string(res.S) != string(res.SignatureRSV[32:64]) || res.V.BigInt().Cmp(big.NewInt(int64(res.SignatureRSV[64]))) != 0 {
+						h.ErrText = "typed-data result is not consistent (hash / V,R,S / signatureRSV)"
+						s = make([]byte, 20)
 					}
 					h.Signer = s
 				}
@@ -301,6 +378,12 @@ func runCase(c *wcase, base string) {
 				} else {
 					ka := wf.KeyPair().Address
 					h.Signer = append([]byte{}, ka[:]...)
+					if string(h.Signer) == string(h.Addr) {
+						retained = append(retained, kept{step, append([]byte{}, h.Addr...), wf})
+						if len(retained) > 6 {
+							retained = retained[1:]
+						}
+					}
 				}
 			case "write":
 				if h.Kind == kDir {
@@ -333,6 +416,152 @@ func runCase(c *wcase, base string) {
 				os.Remove(h.Path)
 			}
 		}()
+		if step%5 == 4 {
+			reverify(fmt.Sprintf("after step %d", step))
+		}
+	}
+	reverify("after the history")
+	if initialisedOK && len(c.Stress) > 0 {
+		stress(ctx, c, w, "the wallet of the history")
+		reverify("after the concurrent section")
+		// a second wallet on the (now unchanging) directory whose signer cache holds one entry: every request
+		// evicts what the previous one cached
+		c2 := *c
+		c2.Conf.SignerCacheSize = "1"
+		c2.Listener = false
+		conf2 := *buildConf(&c2)
+		func() {
+			defer func() {
+				if r := recover(); r != nil {
+					c.StressFailures = append(c.StressFailures, fmt.Sprintf("second wallet (cache size 1) panicked: %v", r))
+				}
+			}()
+			w2, err := fswallet.NewFilesystemWallet(ctx, &conf2)
+			if err != nil {
+				c.StressFailures = append(c.StressFailures, "second wallet (cache size 1): NewFilesystemWallet fails: "+err.Error())
+				return
+			}
+			defer w2.Close()
+			if err := w2.Initialize(ctx); err != nil {
+				c.StressFailures = append(c.StressFailures, "second wallet (cache size 1): Initialize fails: "+err.Error())
+				return
+			}
+			stress(ctx, c, w2, "a second wallet with signer cache size 1")
+		}()
+	}
+}
+
+// one request of the stress section: class (0 Ok / 1 error / 2 panic) and the signer of the result
+func stressRequest(ctx context.Context, w fswallet.Wallet, a []byte, kind int) (cls int, signer []byte, text string) {
+	defer func() {
+		if r := recover(); r != nil {
+			cls, text = 2, fmt.Sprint(r)
+		}
+	}()
+	var addr ethtypes.Address0xHex
+	copy(addr[:], a)
+	switch kind % 3 {
+	case 0:
+		wf, err := w.GetWalletFile(ctx, addr)
+		if err != nil {
+			return 1, nil, err.Error()
+		}
+		ka := wf.KeyPair().Address
+		return 0, append([]byte{}, ka[:]...), ""
+	case 1:
+		chain := []int64{chainA, 1, 0, 1 << 40}[(kind/3)%4]
+		raw, err := w.Sign(ctx, newTx([]byte(`"0x`+hex.EncodeToString(a)+`"`), kind%2 == 0, (kind/3)%8), chain)
+		if err != nil {
+			return 1, nil, err.Error()
+		}
+		s, rerr := recoverTx(raw, chain)
+		if rerr != nil {
+			return 0, make([]byte, 20), "signed transaction does not parse: " + rerr.Error()
+		}
+		return 0, s, ""
+	default:
+		res, err := w.SignTypedDataV4(ctx, addr, typedData())
+		if err != nil {
+			return 1, nil, err.Error()
+		}
+		digest, _ := eip712.EncodeTypedDataV4(ctx, typedData())
+		s, rerr := recoverRSV(digest, res.SignatureRSV)
+		if rerr != nil {
+			return 0, make([]byte, 20), "typed-data signature does not recover: " + rerr.Error()
+		}
+		return 0, s, ""
+	}
+}
+
+// stress: the directory does not change any more.  A sequential round over all addresses fixes the
+// expected class of each (a request that succeeded leaves the key cached, one that failed does not, so
+// on an unchanging directory the class cannot change afterwards); then 4 goroutines issue the three
+// kinds of request for all addresses in different orders.  Oracles: a successful result is signed by the
+// requested address; the class equals the sequential one; nothing panics; GetAccounts is unchanged.
+func stress(ctx context.Context, c *wcase, w fswallet.Wallet, who string) {
+	c.stressRuns++
+	fail := func(f string, a ...interface{}) {
+		if len(c.StressFailures) < 8 {
+			c.StressFailures = append(c.StressFailures, who+": "+fmt.Sprintf(f, a...))
+		}
+	}
+	accountsOf := func() string {
+		defer func() { recover() }()
+		acc, _ := w.GetAccounts(ctx)
+		var sb strings.Builder
+		for _, a := range acc {
+			sb.WriteString(hex.EncodeToString(a[:]) + " ")
+		}
+		return sb.String()
+	}
+	before := accountsOf()
+	want := make([]int, len(c.Stress))
+	for round := 0; round < 2; round++ {
+		for i, a := range c.Stress {
+			cls, signer, text := stressRequest(ctx, w, a, round*5+i)
+			if cls == 2 {
+				fail("request for %x panicked: %s", a, text)
+			}
+			if cls == 0 && string(signer) != string(a) {
+				fail("a request naming %x returned a result whose signer is %x %s", a, signer, text)
+			}
+			// theorem C08_unlisted_address_refused as a Go-side oracle: only listed accounts can sign
+			if cls == 0 && !strings.Contains(before, hex.EncodeToString(a)+" ") {
+				fail("a request naming %x succeeded although GetAccounts does not list that address", a)
+			}
+			if round == 0 {
+				want[i] = cls
+			} else if cls != want[i] {
+				fail("sequential request for %x: class %d, the same request before: class %d (%s)", a, cls, want[i], text)
+			}
+		}
+	}
+	var mu sync.Mutex
+	var wg sync.WaitGroup
+	for g := 0; g < 4; g++ {
+		wg.Add(1)
+		go func(g int) {
+			defer wg.Done()
+			n := len(c.Stress)
+			for j := 0; j < 2*n; j++ {
+				i := (j*(2*g+1) + g) % n
+				a := c.Stress[i]
+				cls, signer, text := stressRequest(ctx, w, a, g+j)
+				mu.Lock()
+				if cls == 2 {
+					fail("concurrent request for %x panicked: %s", a, text)
+				} else if cls == 0 && string(signer) != string(a) {
+					fail("a concurrent request naming %x returned a result whose signer is %x %s", a, signer, text)
+				} else if cls != want[i] {
+					fail("concurrent request for %x: class %d, sequential request: class %d (%s)", a, cls, want[i], text)
+				}
+				mu.Unlock()
+			}
+		}(g)
+	}
+	wg.Wait()
+	if after := accountsOf(); after != before {
+		fail("GetAccounts changed during the request-only section: %s -> %s", before, after)
 	}
 }
 
@@ -552,7 +781,7 @@ func (c *wcase) desc(tier string) caseDesc {
 			}
 			s = "accounts -> [" + strings.Join(as, " ") + "]"
 		case "sign":
-			s = fmt.Sprintf("sign from=%s -> %d signer=%s", short(h.Raw), h.Cls, hex.EncodeToString(h.Signer))
+			s = fmt.Sprintf("sign from=%s chain=%d shape=%d 1559=%v -> %d signer=%s", short(h.Raw), chainOf(h), h.Shape, h.Tx1559, h.Cls, hex.EncodeToString(h.Signer))
 		case "signtd", "getwf":
 			s = fmt.Sprintf("%s %s -> %d signer=%s", h.Op, hex.EncodeToString(h.Addr), h.Cls, hex.EncodeToString(h.Signer))
 		case "write":
@@ -668,6 +897,9 @@ func main() {
 // statistics over the generated inputs
 func account(st *cv.Stats, c *wcase, seen map[string]bool) {
 	st.Hit("label:" + strings.SplitN(c.Label, " ", 2)[0])
+	for i := 0; i < c.stressRuns; i++ {
+		st.Hit("stress-sections")
+	}
 	if c.NewCls != 0 {
 		st.Hit("constructor-error")
 		return
@@ -690,6 +922,10 @@ func account(st *cv.Stats, c *wcase, seen map[string]bool) {
 		switch h.Op {
 		case "sign", "signtd", "getwf":
 			st.Hit("requests")
+			if h.Op == "sign" {
+				st.Hit(fmt.Sprintf("tx-shape:%d", h.Shape))
+				st.Hit(fmt.Sprintf("tx-chain:%d", chainOf(h)))
+			}
 			st.Hit(fmt.Sprintf("request-class:%d", h.Cls))
 			code := "ok"
 			if h.Cls == 1 {
@@ -727,6 +963,9 @@ func implOracles(st *cv.Stats, c *wcase, d caseDesc) {
 	}
 	if c.NewCls != 0 {
 		return
+	}
+	for _, f := range c.StressFailures {
+		st.ImplFailures = append(st.ImplFailures, map[string]interface{}{"what": f, "key": "", "case": d})
 	}
 	for i, h := range c.Hist {
 		if h.Cls == 2 {
